@@ -47,7 +47,8 @@ def all_digraphs(n, max_down=2, max_deps=1):
 
 
 def planted(rng, n):
-    hist = gen_graph.gen_history(rng, n, labels=False, deps=rng.random() < 0.6, shuffle=False)
+    # half of the planted histories carry branch labels: label propagation walks the links too
+    hist = gen_graph.gen_history(rng, n, labels=rng.random() < 0.5, deps=rng.random() < 0.6, shuffle=False)
     ids = [r["id"] for r in hist]
     k = rng.choice([0, 1, 1, 1, 2])
     for _ in range(k):
@@ -101,8 +102,12 @@ def histories(ctx, rng):
         kind, h = malformed(rng, rng.randint(1, 7))
         yield "malformed:" + kind, h
     for n in (1, 2, 3):
-        for h in all_digraphs(n):
+        for k, h in enumerate(all_digraphs(n)):
             yield "exhaustive-%d" % n, h
+            # the same digraph with a branch label on one of its revisions (rotating)
+            h2 = [dict(r) for r in h]
+            h2[k % n]["labels"] = ["lbl"]
+            yield "exhaustive-%d-labelled" % n, h2
     if ctx.thorough:
         for h in all_digraphs(4, max_down=2, max_deps=0):
             yield "exhaustive-4-nodeps", h
